@@ -72,6 +72,16 @@ def cfg_for(new):
     return mod, c, None
 
 
+def _with_src_hint(cfg, ev):
+    """Concurrent streams: the size hint of the source stream is an input of the run (CoStream.tla: cfg.srcHint); it is
+    read off the run's `coview` event."""
+    if cfg.get("fam") == "co":
+        for e in ev:
+            if e["e"] == "coview":
+                return dict(cfg, srcHint=[e["slo"], e["shi"]])
+    return cfg
+
+
 def split_runs(path):
     cur = None
     with open(path) as f:
@@ -140,7 +150,7 @@ def convert(paths, per_module_max=None, stride=1, per_file_max=None):
             if new["fam"] == "co":
                 # waker identities of third-party (futures-buffered) wakers are not modelled: canonicalise
                 ev = [dict(e, wid=-7) if "wid" in e else e for e in ev]
-            lst.append(dict(id=new.get("id", "?"), cfg=cfg, ev=ev))
+            lst.append(dict(id=new.get("id", "?"), cfg=_with_src_hint(cfg, ev), ev=ev))
     return runs, skipped
 
 
@@ -208,7 +218,7 @@ def _convert_one(evs):
     ev = [e for e in evs if e["e"] not in SKIP_EV]
     if new["fam"] == "co":
         ev = [dict(e, wid=-7) if "wid" in e else e for e in ev]
-    return (mod, dict(id=new.get("id", "?"), cfg=cfg, ev=ev)), None
+    return (mod, dict(id=new.get("id", "?"), cfg=_with_src_hint(cfg, ev), ev=ev)), None
 
 
 def tlc_trace(mod, runfile, workdir, cfgname=None, workers=4, timeout=3600):
